@@ -4,6 +4,8 @@ import (
 	"context"
 	"errors"
 	"sync/atomic"
+
+	"github.com/klev-dev/klevdb/pkg/verifhook"
 )
 
 var ErrOffsetNotifyClosed = errors.New("offset notify already closed")
@@ -29,6 +31,7 @@ func (w *Offset) Wait(ctx context.Context, offset int64) error {
 	if w.nextOffset.Load() > offset {
 		return nil
 	}
+	verifhook.Pause("notify.wait.fast")
 
 	// acquire current barrier
 	b, ok := <-w.barrier
@@ -36,12 +39,15 @@ func (w *Offset) Wait(ctx context.Context, offset int64) error {
 		// already closed, return error
 		return ErrOffsetNotifyClosed
 	}
+	verifhook.Pause("notify.wait.acquired")
 
 	// probe the current offset
 	updated := w.nextOffset.Load() > offset
+	verifhook.Pause("notify.wait.probed")
 
 	// release current barrier
 	w.barrier <- b
+	verifhook.Pause("notify.wait.released")
 
 	// already has a new value, return
 	if updated {
@@ -64,14 +70,17 @@ func (w *Offset) Set(nextOffset int64) {
 		// already closed
 		return
 	}
+	verifhook.Pause("notify.set.acquired")
 
 	// set the new offset
 	if w.nextOffset.Load() < nextOffset {
 		w.nextOffset.Store(nextOffset)
 	}
+	verifhook.Pause("notify.set.stored")
 
 	// close the current barrier, e.g. broadcasting update
 	close(b)
+	verifhook.Pause("notify.set.broadcast")
 
 	// create new barrier
 	w.barrier <- make(chan struct{})
@@ -84,9 +93,11 @@ func (w *Offset) Close() error {
 		// already closed, return an error
 		return ErrOffsetNotifyClosed
 	}
+	verifhook.Pause("notify.close.acquired")
 
 	// close the current barrier, e.g. broadcasting update
 	close(b)
+	verifhook.Pause("notify.close.broadcast")
 
 	// close the barrier channel, completing process
 	close(w.barrier)
